@@ -5,14 +5,15 @@ From Coq Require Import String.
 From KM Require Import Base.Bytes Model.KeyStrength Model.Client Proofs.Client.
 
 (* taint theorem over the client's request builders: whatever the signers hold, every atom of
-   every request of a setupCerts run is text, the password, or the result of signer.Public() *)
-Theorem c19_wire_only_public : forall sg a, In a (wire_atoms (setup_wire sg)) ->
+   every request of a setupCerts run (with or without a one-time-code step) is text, the password
+   or code, or the result of signer.Public() *)
+Theorem c19_wire_only_public : forall otp sg a, In a (wire_atoms (setup_wire2 otp sg)) ->
   a = AText \/ a = ASecret \/ a = public (sg_x509 sg) \/ a = public (sg_ssh sg) \/ a = public (sg_ed sg).
-Proof. exact wire_only_public. Qed.
+Proof. exact wire2_only_public. Qed.
 Print Assumptions c19_wire_only_public.
 
 (* hence with real signers (private and public half tagged as such) nothing private is sent *)
-Theorem c19_no_private_on_wire : forall a, In a (wire_atoms (setup_wire make_signers)) -> is_priv a = false.
+Theorem c19_no_private_on_wire : forall otp a, In a (wire_atoms (setup_wire2 otp make_signers)) -> is_priv a = false.
 Proof. exact no_private_on_wire. Qed.
 Print Assumptions c19_no_private_on_wire.
 
